@@ -113,9 +113,9 @@ Proof.
     destruct (expired _ _ _ _); [assumption|].
     match goal with |- context [grant_tokens ?s2 ?stored ?w] =>
       pose proof (prov_grant_tokens (src s) s2 stored w) as G; destruct (grant_tokens s2 stored w) as [s3 minted] end.
-    cbn [fst] in *. eapply prov_trans; [exact P1|].
-    eapply prov_trans; [apply prov_invalidate_code|]. apply G.
-    cbn. right. left. exists k, r. auto.
+    cbn [fst st set_store] in *. eapply prov_trans; [exact P1|].
+    eapply prov_trans; [apply prov_invalidate_code|].
+    eapply prov_trans; [apply G; cbn; right; left; exists k, r; auto|]. apply prov_eq_tables; reflexivity.
   - cbn [fst fail st set_store].
     eapply prov_trans; [apply prov_revoke_access|apply prov_revoke_refresh].
 Qed.
